@@ -239,13 +239,18 @@ PROPS = {
         ],
     },
     "C10": {
-        "lean_targets": ["Cql.Props.C10"],
+        "gens": ["inflight"],
+        "lean_targets": ["Cql.Props.C10", "Cql.Props.C10Dispatch"],
         "trusted_base": COMMON_TRUST + [HARNESS,
-            "Cql/Inflight.lean: hand-written API-level model of client/inflight.go, tied to the code by the correspondence run"],
+            "Cql/Inflight.lean: hand-written API-level model of client/inflight.go, tied to the code by the correspondence run",
+            "Cql/Dispatch.lean: hand-written model of CqlClientConnection.processIncomingFrame (event branch, non-blocking send on the event "
+            "queue); its two parameters are regenerated from client/client.go (Cql/Gen/DispatchFacts.lean); event routing is also observed "
+            "on real connections (events between responses, an event flood)"],
         "assumptions": [
             "each handler call is atomic; the receive loop is the only caller of onIncomingFrameReceived (as in client.go)",
             "timers do not fire during the modelled history; the connection context is not cancelled mid-delivery",
-            "event dispatch (opcode EVENT never reaches the in-flight handler) is checked by the harness on the real client, not in this model",
+            "event dispatch is modelled in Cql/Dispatch.lean at the level of one incoming frame = one atomic step of the reader goroutine; "
+            "event handlers are assumed to return",
         ],
     },
     "C01": {
@@ -480,17 +485,23 @@ MANIFEST_TEXT = {
                 "any state. The model is compared with the real handler output-by-output on exhaustive small and random long histories.",
         "design_ref": "DESIGN.md §5 C09",
         "note": "Trusted: Lean kernel; the hand-written model (tied by differential runs through client/verif_hooks.go, build tag verif). "
-                "Goroutine interleavings inside one handler call are outside the API-level theorems.",
+                "Goroutine interleavings: micro-step models (caller-chosen ids: the two critical sections of a send; managed ids: borrow / look / "
+                "register against look up / remove / put back) are proved safe for EVERY interleaving, with the step order regenerated from "
+                "client/inflight.go; what happens inside a critical section rests on Go's mutex and channel semantics.",
         "technique": "Lean 4 invariant by induction over operation histories of an executable state-machine model + differential correspondence",
     },
     "C10": {
         "text": "Lean theorems over the same model, for every state and history with arbitrary (managed or explicit) ids: a frame for an "
                 "unknown id changes nothing; a delivery touches no request other than the one registered under its id; on success the "
                 "frame is appended exactly once after all earlier ones and the request completes exactly on the last page; in every "
-                "reachable state the request registered under id k was sent with id k; consumers read frames in acceptance order.",
+                "reachable state the request registered under id k was sent with id k; consumers read frames in acceptance order. "
+                "Event dispatch (Cql/Dispatch.lean, for every sequence of incoming frames): events never touch a request, responses never "
+                "enter the event queue or a handler whatever their stream ids, the handler sees exactly the non-event frames in order, the "
+                "reader never stalls on a full event queue; the model's two parameters (branch on the opcode, non-blocking queue send) are "
+                "regenerated from client/client.go and a failing history is exhibited for each variant.",
         "design_ref": "DESIGN.md §5 C10",
-        "note": "Trusted: Lean kernel; the hand-written model (differentially tied to the real handler). Event dispatch and the v5 segment "
-                "path are exercised by the harness / C15, not proved here.",
+        "note": "Trusted: Lean kernel; the hand-written models (differentially tied to the real handler; dispatch facts regenerated from the "
+                "source). The v5 segment path is exercised by the harness / C15, not proved here.",
         "technique": "Lean 4 per-step frame/refinement theorems + reachable-state invariant over an executable model + differential correspondence",
     },
     "C01": {
